@@ -142,7 +142,8 @@ bool Hist::opFrame(int how) {
     int forceSub = -1;
     if (!wild && aused > 0 && prev.h.sub == 0) { if (rng.chance(55)) return false; forceSub = rng.range(1, 2); }   // channels declared but the header ratio is 0 (no analog rate, or a rate below half the point rate)   // channels declared but no analog rate yet: the README frame would carry no sub-frames (undocumented shape)
     bool contentless = false;
-    if (used == 0 && aused == 0) {
+    if (used == 0 && aused == 0 && !wild && how == 0 && o.profile == "c06" && rng.chance(50)) contentless = true;   // place-holder frames on an object with nothing declared (any rate): "every frame content" includes none
+    else if (used == 0 && aused == 0) {
         if (float0(prev, "POINT", "RATE") == 0.0f && !wild) return false;
         if (prev.h.sub > 0 && how == 0 && o.profile == "c08" && rng.chance(40)) contentless = true;   // the README frame of an object with nothing declared: empty sub-frames only
         else if (n == 0) dev = 14; else return false;
@@ -396,14 +397,18 @@ bool Hist::opPointColumn() {
     if (dev == 7) names[1] = names[0];
     size_t nf = n; if (dev == 1) { if (n == 0) dev = 3; else nf = n - 1; } if (dev == 2) nf = n + 1; if (dev == 3) nf = 0;
     if (n == 0 && dev == 0) dev = 3;
-    std::vector<Frame> frames; std::vector<std::vector<SPoint> > np(nf);
+    // two ways a caller builds the column: frame by frame, or a vector of n copies of one empty frame filled in place (the copies of a
+    // Frame share their payload until add() gives each its own)
+    bool inPlace = rng.chance(40);
+    std::vector<Frame> frames; if (inPlace) frames.assign(nf, Frame()); std::vector<std::vector<SPoint> > np(nf);
     for (size_t f = 0; f < nf; ++f) {
         Points pts; size_t kk = (dev == 4) ? 0 : k; if (dev == 8 && f == nf - 1 && nf > 1) kk = k - 1;
         for (size_t i = 0; i < kk; ++i) { SPoint ip; pts.point(mkPoint(*this, (dev == 9 && f == nf - 1 && i == 1) ? altName : names[i], &ip)); np[f].push_back(ip); }
-        Frame fr; fr.add(pts); frames.push_back(fr);
+        if (inPlace) frames[f].add(pts); else { Frame fr; fr.add(pts); frames.push_back(fr); }
     }
+    if (!wild) for (size_t f = 0; f < nf; ++f) { std::vector<SPoint> back = takeFrame(frames[f]).pts; bump("c06_caller_frame_checked"); if (back != np[f]) { log.viol("C06", "caller_frame_loses_content/column", std::string("frame ") + std::to_string((unsigned long long)f) + " of a point column " + (inPlace ? "(vector of copies filled in place) " : "") + "does not hold the points it was given"); break; } }
     static const char* dn[] = {"valid", "frames-1", "frames+1", "no_frames", "no_points", "existing_name", "second_existing", "second_duplicates_first", "ragged", "renamed_in_last_frame"};
-    std::ostringstream a; a << "dev=" << dn[dev] << " columns=" << k << " supplied=" << nf << " n=" << n;
+    std::ostringstream a; a << "dev=" << dn[dev] << " columns=" << k << " supplied=" << nf << " n=" << n << (inPlace ? " built=in_place" : "");
     log.pre("point"); Outcome oc; VF_TRY(oc, obj->point(frames));
     log.ev("point_column", a.str(), oc); bump("op:point_column"); bump(std::string("coldev:") + dn[dev] + (oc.threw ? ":refused" : ":accepted"));
     if (!wild) {
@@ -442,13 +447,15 @@ bool Hist::opChannelColumn() {
     size_t ns = nsub; if (dev == 3) { if (nsub <= 1 && !wild) dev = 4; else ns = nsub ? nsub - 1 : 0; } if (dev == 4) ns = nsub + 1;
     // "the number of sub-frames supplied differs from the data set" also when only ONE supplied frame (not the first) deviates
     bool lateOnly = (dev == 3 || dev == 4) && nf >= 2 && rng.chance(45); size_t lateFrame = lateOnly ? 1 + rng.below(nf - 1) : 0;
-    std::vector<Frame> frames; std::vector<std::vector<std::vector<SChan> > > nc(nf);
+    bool inPlace = rng.chance(40);      // (see opPointColumn)
+    std::vector<Frame> frames; if (inPlace) frames.assign(nf, Frame()); std::vector<std::vector<std::vector<SChan> > > nc(nf);
     for (size_t f = 0; f < nf; ++f) {
         Analogs an;
         size_t nsHere = (lateOnly && f != lateFrame) ? nsub : ns;
         for (size_t s = 0; s < nsHere; ++s) { SubFrame sf; size_t kk = dev == 5 ? 0 : k; if (ragged && f == nf - 1 && s == ns - 1) kk = k - 1; for (size_t i = 0; i < kk; ++i) { Channel c; c.name(names[i]); c.data(bitsf(genFloatBits(rng, specialFloats))); sf.channel(c); } an.subframe(sf); }
-        Frame fr; fr.add(an); frames.push_back(fr); nc[f] = takeFrame(fr).subs;
+        if (inPlace) { frames[f].add(an); nc[f] = takeFrame(frames[f]).subs; } else { Frame fr; fr.add(an); frames.push_back(fr); nc[f] = takeFrame(fr).subs; }
     }
+    if (!wild) for (size_t f = 0; f < nf; ++f) { bump("c06_caller_frame_checked"); if (takeFrame(frames[f]).subs != nc[f]) { log.viol("C06", "caller_frame_loses_content/column", std::string("frame ") + std::to_string((unsigned long long)f) + " of a channel column " + (inPlace ? "(vector of copies filled in place) " : "") + "no longer holds the samples it was given"); break; } }
     static const char* dn[] = {"valid", "frames-1", "frames+1", "sub-1", "sub+1", "no_channels", "existing_name", "second_existing", "second_duplicates_first", "no_frames"};
     std::ostringstream a; a << "dev=" << (ragged ? "ragged_subframe" : dn[dev]) << (lateOnly ? "@one_later_frame" : "") << " columns=" << k << " supplied=" << nf << "x" << ns << " n=" << n << " sub=" << nsub;
     log.pre("analog"); Outcome oc; VF_TRY(oc, obj->analog(frames));
